@@ -632,7 +632,11 @@ impl VisitMut for Rw {
                     let recv = (*m.receiver).clone();
                     let args = m.args.clone();
                     self.log.push(format!("R8 method call .{name}() -> {to}()"));
-                    if to.starts_with("&mut ") {
+                    let unsized_place = matches!(&recv, Expr::Index(ix) if matches!(&*ix.index, Expr::Range(_)));
+                    if unsized_place {
+                        // `x[..].m()`: the method auto-refs the unsized place
+                        Some(parse_quote!(#callee(&#recv, #args)))
+                    } else if to.starts_with("&mut ") {
                         // the method's auto-ref of its receiver made explicit
                         Some(parse_quote!(#callee(&mut #recv, #args)))
                     } else if to.starts_with("&*") {
